@@ -6,7 +6,7 @@ CONSTANTS
   MaxOv = 2
   MinParams = 2
   MaxParams = 2
-  ParamTypes = {"int", "str", "bool", "object", "any"}
+  ParamTypes = {"int", "str", "object", "any"}
   ArgTypes = {"int", "str", "bool", "any", "int|str", "none"}
   Names = {"x", "y"}
   Kinds = {"pk"}
@@ -16,6 +16,7 @@ CONSTANTS
   MaxRet = 4
   DistinctRets = FALSE
   MaxUnionArgs = 1
+  EmitOneIn = 3
 INVARIANT PropertyHolds
 INVARIANT MachineIsOperator
 INVARIANT BinderAgrees
